@@ -149,7 +149,7 @@ func NewGenesis(spec *common.Spec, opts GenesisOpts) (c *Chain, err error) {
 		Keys:                keys,
 		State:               &beacon.StandardUpgradeableBeaconState{BeaconState: state},
 		Epc:                 epc,
-		CompensateSyncCache: true,
+		CompensateSyncCache: false,
 	}
 	// forks active at epoch 0
 	if err := sc.State.UpgradeMaybe(context.Background(), spec, epc); err != nil {
